@@ -174,6 +174,98 @@ def follower_test(ctx, prog, rule):
            how='entryPos == content || entryPos[-1] == LF')
 
 
+def line_start_rule(ctx, prog, rule):
+    """In the active-line search: a loop that steps a pointer backwards to find the beginning of the line must
+    be able to reach it, i.e. its lower bound is the (never modified) start of the content.  A bound that is
+    advanced behind each comment hit makes a second hit on the same comment line stop in mid-line, and the
+    character tested for '#' is then not the first of the line: the comment counts as an active entry."""
+    from engine.dataflow import def_sites
+    chk = ctx.chk
+    F = prog.require_func(FIND_FOREIGN)
+    n = 0
+    for comp in C._sccs(F, C.reachable_blocks(F)):
+        if not (len(comp) > 1 or comp[0] in F.blocks[comp[0]].succs):
+            continue
+        decs = [e for b in comp for e in F.blocks[b].elems
+                if e.k == 'UnaryOperator' and e.get('op') == '--' and decl_of(e.ch[0]) is not None]
+        for dnode in decs:
+            walker = decl_of(dnode.ch[0])['id']
+            for b in comp:
+                c = strip(F.blocks[b].cond) if F.blocks[b].cond is not None else None
+                if c is None or c.k != 'BinaryOperator' or c['op'] not in ('>', '>=', '<', '<=', '!='):
+                    continue
+                ids = [(decl_of(x) or {}).get('id') for x in c.ch]
+                if walker not in ids or None in ids:
+                    continue
+                bnode = c.ch[1] if ids[0] == walker else c.ch[0]
+                bound = decl_of(bnode)
+                if bound is None or bound['id'] == walker or not (strip(bnode).get('ct') or '').rstrip().endswith('*'):
+                    continue
+                n += 1
+                # the bound: a parameter never assigned, or a variable only ever holding such a parameter
+                def fixed(d, depth=0):
+                    sites = [k for k, _ in def_sites(F, d['id'])]
+                    if d.get('kind') == 'parm':
+                        return all(k == 'decl' for k in sites)
+                    defs = def_exprs(F, d['id'])
+                    return depth < 3 and bool(defs) and all(
+                        decl_of(x) is not None and strip(x).k == 'DeclRefExpr' and fixed(decl_of(x), depth + 1) for x in defs)
+                ok = fixed(bound)
+                chk.ob(rule, 'line-start-search-bounded-by-content-start[%s]' % bound['name'], ok, c.where(), F.name,
+                       'the backward search for the start of the line stops at %s, which is moved forward behind every hit '
+                       'in a comment: a comment mentioning the library twice ("# libsnoopy.so libsnoopy.so") is entered in '
+                       'mid-line, the character tested for "#" is not the first of the line, and the comment counts as an '
+                       'active entry (enable refuses, status reports a duplicate)' % bound['name'],
+                       how='the bound %s only ever holds the start of the content' % bound['name'])
+    if n == 0:
+        raise AnalysisBroken('no backward line-start search found in %s' % FIND_FOREIGN)
+    # the character classified as "#" or not is the first one of the line: when it is read, the walker is known
+    # not to rest on the newline that ended the previous line
+    walkers = {decl_of(e.ch[0])['id'] for b in F.blocks.values() for e in b.elems
+               if e.k == 'UnaryOperator' and e.get('op') == '--' and decl_of(e.ch[0]) is not None}
+
+    def char_test(cond, wid, ch):
+        """(is a test of *walker against character ch, successor index taken when they are equal)"""
+        isx = lambda x: (x.k == 'UnaryOperator' and x.get('op') == '*' and (decl_of(x.ch[0]) or {}).get('id') == wid) or \
+            (x.k == 'ArraySubscriptExpr' and (decl_of(x.ch[0]) or {}).get('id') == wid and strip(x.ch[1]).get('v') == 0)
+        return isx
+    for wid in sorted(walkers):
+        isx = char_test(None, wid, None)
+        classify = []
+        for b in F.blocks.values():
+            ce = common.compare_edges(b, isx) if b.cond is not None else None
+            if ce is not None and ce[0] == 35:      # '#'
+                classify.append(b)
+        if not classify:
+            continue
+        U, N, G = 'unknown', 'on-newline', 'first-of-line'
+
+        def transfer(st, e, wid=wid):
+            if e.k == 'UnaryOperator' and e.get('op') == '++' and (decl_of(e.ch[0]) or {}).get('id') == wid:
+                return G if st == N else U
+            if common.modifies_var(e, wid):
+                return U
+            return st
+
+        def edge(st, blk, si, isx=isx):
+            ce = common.compare_edges(blk, isx) if blk.cond is not None else None
+            if ce is not None and ce[0] == 10:      # newline
+                return N if si == ce[1] else G
+            return st
+        ins = C.forward_dataflow(F, U, transfer, lambda a, b_: a if a == b_ else U, edge_transfer=edge)
+        for b in classify:
+            st = ins.get(b.id)
+            if st is None:
+                continue
+            for e in b.elems:
+                st = transfer(st, e)
+            chk.ob(rule, 'classified-character-is-first-of-line', st == G, b.cond.where(), F.name,
+                   'when the line is classified by its first character, the pointer may still rest on the newline that ends '
+                   'the previous line (or on a leading newline of the content): a comment after a blank first line, or the '
+                   're-scan that starts on a newline, is then taken for an active entry',
+                   how='on every path the pointer was last found not to be on a newline, or stepped over one')
+
+
 def run(ctx):
     chk = ctx.chk
     chk.rule('Q1', 'etcLdSoPreload_writeFile is the only function that opens the preload path for writing and its callers '
@@ -185,14 +277,15 @@ def run(ctx):
                    'content is copied whole and the entry is appended at or after its end', floor=4)
     chk.rule('Q6', 'own-entry recognition: the entry starts a line and is followed by NUL, newline, "#", space or tab '
                    '(exactly the documented follower set, tested on that single character)', floor=2)
+    chk.rule('Q7', 'comment classification reads the first character of the line: the backward search for the line start is '
+                   'bounded by the start of the content, not by a cursor that moves with the search', floor=1)
     chk.explanation = (
         'Control-flow clauses by branch-polarity reachability over the enable action, the follower-character set of the '
         'entry search compared with the documented set, and linear-inequality obligations for the buffer arithmetic: '
         'the copy of the old content covers strlen(old) bytes and the append position is proved >= new + strlen(old), so '
         'nothing of the old content is overwritten, for every file content.')
     chk.assumptions = ['C20 holds (the write replaces the file atomically with the buffer given)']
-    chk.not_decided = ['byte-level result beyond these clauses: comment-line classification by the foreign-instance '
-                       'search, agreement with `snoopyctl status`']
+    chk.not_decided = ['byte-level result beyond these clauses; agreement with `snoopyctl status`']
     prog = ctx.program(facts.AS_CONFIGURED, 'cli')
     PROG[0] = prog
     cg = ctx.callgraph(facts.AS_CONFIGURED, 'cli')
@@ -206,8 +299,17 @@ def run(ctx):
     mn, mx = C.count_on_paths(F, lambda e: e.id == wc.id)
     chk.ob('Q2', 'write-at-most-once', mx == 1, wc.where(), F.name, 'the write can execute %s times' % mx)
     fe, ff = F.calls(FIND_ENTRY), F.calls(FIND_FOREIGN)
+    if not ff and not fe:
+        raise AnalysisBroken('enable calls neither %s nor %s' % (FIND_ENTRY, FIND_FOREIGN))
+    chk.ob('Q6', 'already-enabled-decided-by-the-entry-search', bool(fe), F.where(), F.name,
+           'enable no longer decides "our entry is already there" with %s (start of line + documented follower set): a '
+           'looser search also accepts lines that merely contain the path ("<path>.bak", "/chroot<path>"), reports '
+           '"already enabled" for them and disagrees with status/disable' % FIND_ENTRY,
+           how='%s(content, library path)' % FIND_ENTRY)
+    chk.ob('Q2', 'foreign-instance-search-present', bool(ff), F.where(), F.name,
+           'enable no longer looks for another active line mentioning the library with %s' % FIND_FOREIGN, nontrivial=False)
     if not fe or not ff:
-        raise AnalysisBroken('enable does not call %s / %s' % (FIND_ENTRY, FIND_FOREIGN))
+        return
     # what is searched
     rd = F.calls(READER)
     content = common.holder(F, rd[0]) if rd else None
@@ -233,6 +335,7 @@ def run(ctx):
         chk.ob('Q2', '%s-tested-before-write' % label, dom and bool(absent_edges), wc.where(), F.name,
                'a path reaches the write without the %s test' % label)
     follower_test(ctx, prog, 'Q6')
+    line_start_rule(ctx, prog, 'Q7')
     # ---- Q3 ------------------------------------------------------------------------------------------
     ba = BoundsAnalysis(prog, cg)
     newbuf = decl_of(arg(wc, 0))
